@@ -31,6 +31,8 @@ def plan(tier, seed):
         shards.append({'name': 'random-%d' % i, 'fn': 'shard_random', 'args': {'part': i, 'parts': nr, 'big': False}})
     shards.append({'name': 'random-boundscheck', 'fn': 'shard_random', 'args': {'part': 0, 'parts': 4 if tier == 'quick' else 2, 'big': False},
                    'env': {'NUMBA_BOUNDSCHECK': '1'}})
+    for i in range(2 if tier == 'quick' else 6):
+        shards.append({'name': 'via-dispatch-%d' % i, 'fn': 'shard_dispatch', 'args': {'part': i}})
     for i in range(3 if tier == 'quick' else 8):
         shards.append({'name': 'huge-stratum-rare-classes-%d' % i, 'fn': 'shard_skew', 'args': {'part': i}})
     if tier == 'thorough':
@@ -140,3 +142,33 @@ def shard_skew(sh, part):
                 X = np.zeros(n, dtype=np.int32)
                 X[nprng.choice(n, n // 50, replace=False)] = nprng.integers(1, 6, n // 50)
             observe_pair(sh, est, Y, X, 'huge-stratum-rare-classes/' + layout, sample=True)
+
+
+def shard_dispatch(sh, part):
+    """The plain score as users obtain it: through the heuristic dispatch (MI-numba-3mr) with 1-D and (n, 1) shaped feature
+    vectors, and through get_importances_estimate_pairwise on consecutive frames with the same column names and row count."""
+    import types
+    import numpy as np
+    import pandas as pd
+    from outrank.algorithms import importance_estimator as ie
+    rng, nprng = sh.rng('dispatch', part), sh.nprng('dispatch', part)
+    args = types.SimpleNamespace(heuristic='MI-numba-3mr', mi_stratified_sampling_ratio=1.0, label_column='label', reference_model_JSON='')
+    reps = 120 if sh.tier == 'quick' else 600
+    n_fixed = rng.choice([64, 200])
+    for t in range(reps):
+        cls = rng.choice(gen.PAIR_CLASSES)
+        n = n_fixed if t % 2 else rng.choice([2, 5, 30, 200, 1000])
+        Y, X = gen.random_pair(rng, nprng, cls, n)
+        mi = oracles.plugin_mi(Y, X)
+        wit = lambda **kw: dict(kw, cls=cls, n=n, Y=Y[:200], X=X[:200], model_mi=mi)  # noqa: E731
+        for shape in ('1d', 'column'):
+            first = Y if shape == '1d' else Y.reshape(-1, 1)
+            ok, s = sh.call('plugin-mi', 'conduct_feature_ranking', ie.conduct_feature_ranking, first, X, args)
+            if ok:
+                sh.check('plugin-mi', oracles.close32(s, mi), 'dispatched-score!=plugin-mi', lambda: wit(got=float(s), feature_shape=shape))
+        # same column names, same number of rows, different content than the previous frame
+        df = pd.DataFrame({'f': Y, 'label': X})
+        ok, res = sh.call('plugin-mi', 'get_importances_estimate_pairwise', ie.get_importances_estimate_pairwise, ('f', 'label'), {}, args, df)
+        if ok:
+            sh.check('plugin-mi', res[0] == 'f' and res[1] == 'label' and oracles.close32(res[2], mi), 'pairwise-estimate!=plugin-mi-of-this-frame', lambda: wit(got=float(res[2]), consecutive_frame=t))
+        sh.case((gen.joint_signature(Y, X), 'dispatch'), mi > 1e-3, 'via-dispatch/' + cls)
